@@ -59,7 +59,8 @@ ObsCall(e) ==
   \* (late: the operation was started on an object whose Close had already begun - its error
   \*  completion is not "a callback after Close" in the sense of the statement)
   ELSE /\ ops' = ops @@ (e.op :> [o |-> e.o, dir |-> e.dir, st |-> "run", ret |-> FALSE, err |-> "",
-                                   late |-> (e.o \in DOMAIN ost /\ ost[e.o] # "open")])
+                                   late |-> (e.o \in DOMAIN ost /\ ost[e.o] # "open"),
+                                   all |-> e.api = "readall"])   \* one operation that moves e.n units
        /\ UNCHANGED <<kinds, cls, lim, base, ost, csnap, tm, posted, ranp, anomaly, rnext, bad>>
 
 ObsRet(e) ==
@@ -80,7 +81,7 @@ ObsCbB(e) ==
     \* per object); in a chain this is "the result it would have had inline"
     ELSE IF r.dir = "R" /\ e.err = "nil" /\ e.n > 0 /\ e.tok # rnext[r.o] /\ cls = "chain" /\ "C14" \in Focus
          THEN Fail("C14/deferred-result/" \o Kind(r.o) \o ":wrong-unit")
-    ELSE /\ rnext' = IF r.dir = "R" /\ e.err = "nil" /\ e.n > 0 THEN [rnext EXCEPT ![r.o] = e.tok + 1] ELSE rnext
+    ELSE /\ rnext' = IF r.dir = "R" /\ e.err = "nil" /\ e.n > 0 THEN [rnext EXCEPT ![r.o] = e.tok + (IF r.all THEN e.n ELSE 1)] ELSE rnext
          /\ ops' = [ops EXCEPT ![e.op].st = "done", ![e.op].err = e.err]
          /\ ranp' = IF ranp = "" THEN "" ELSE "y"
          /\ anomaly' = IF IsErrno(e.err) /\ ~r.ret THEN "failed-registration:" \o Kind(r.o)
